@@ -25,13 +25,16 @@ Checked == phase = "checked"
 Kinds == {"G", "M", "C", "L"}
 Q(k) == IF k = "C" THEN 2 ELSE 1
 Signs == {"neg", "zero", "pos"}
-OutSigns == {"pos", "somezero", "someneg"}
+\* "smallneg": some output is negative, but so small that the total standard deviation of every observation stays positive
+OutSigns == {"pos", "somezero", "someneg", "smallneg"}
 
 ClassOf == IF \E j \in 1..Q(kind) : scaleSign[j] # "pos" THEN "-inf"
            ELSE IF kind = "L" /\ outSign # "pos" THEN "-inf"
            ELSE "finite"
-\* the documented densities are only defined for these inputs: positive total standard deviation
-Defined == ClassOf = "-inf" \/ outSign = "pos"
+\* the documented densities are only defined for these inputs: positive total standard deviation -- always for the Gaussian
+\* model (its standard deviation does not depend on the output), for the constant-and-multiplicative model also with
+\* negative outputs as long as sigma_base + sigma_rel * output > 0
+Defined == ClassOf = "-inf" \/ outSign = "pos" \/ kind = "G" \/ (kind = "C" /\ outSign = "smallneg")
 
 Terms == [i \in 1..n |-> <<"obs", i>>]
 TotalBag == {Terms[i] : i \in 1..n}
